@@ -11,7 +11,12 @@ Model of
 
 Inputs that the code obtains from elsewhere are inputs of the model: the ordered glyph set
 (exported glyphs in glyph order, each with the anchors of the UFO glyph), which code points of the
-cmap are left-to-right, and the set `classifyGlyphs(...)["LTR"]`.
+cmap are left-to-right, the set `classifyGlyphs(cmap, gsub)["LTR"]` (cmap classification + GSUB closure)
+and the designspace rule substitutions the compiler hands to the writers (`extraSubstitutions`), which the
+model applies itself (`applyExtras`).
+
+A writer *instance* may be used for several fonts (`featureWriters=[GdefFeatureWriter()]` over several
+compile calls or over every master of `compileInterpolatable*`): `runSeq`.
 -/
 namespace Ufo2ft.C18
 
@@ -241,14 +246,33 @@ def makeCursiveLookup (quant : Option Q) (glyphs : List GlyphIn) (entryName exit
              else if isLTRName entryName then some Dir.ltr else direction
     some { rtl := d != some Dir.ltr, recs := st }
 
-/-- direction data: `anyLtrCp` = some cmap code point has direction LTR; `ltr` = dirGlyphs.get("LTR") -/
+/-- direction data: `anyLtrCp` = some cmap code point has direction LTR; `ltr` = the "LTR" entry of
+`glyphSets` in `util.classifyGlyphs` after the cmap classification and the GSUB closure (fontTools'
+subsetter: an input); `extras` = `compiler.extraSubstitutions`, the `(left, right)` substitutions of the
+designspace rules (`BaseInterpolatableCompiler._pre_compile_designspace`:
+`for rule in rules: for left, right in rule.subs: extraSubstitutions[left].add(right)`), empty for a
+build that does not start from a designspace. -/
 structure DirData where
   anyLtrCp : Bool
   ltr : Option (List String)
+  extras : List (String × String) := []
   deriving Repr
 
 def shouldSplit (d : DirData) : Bool := d.anyLtrCp && d.ltr.isSome
-def ltrSet (d : DirData) : List String := d.ltr.getD []
+
+/-- `extra_substitutions.get(glyph, set())` -/
+def extrasGet (extras : List (String × String)) (g : String) : List String :=
+  (extras.filter (fun e => e.1 == g)).map (·.2)
+
+/-- last step of `util.classifyGlyphs`:
+`to_append = set(); for glyph in glyphs: to_append |= extra_substitutions.get(glyph, set()); glyphs.update(to_append)`
+— one step, not a closure (the loop runs over the set as it was before the update) -/
+def applyExtras (extras : List (String × String)) (glyphs : List String) : List String :=
+  glyphs ++ glyphs.flatMap (extrasGet extras)
+
+/-- `dirGlyphs["LTR"]` as `CursFeatureWriter._makeCursiveFeature` sees it:
+`classifyGlyphs(unicodeScriptDirection, cmap, gsub, extras)["LTR"]` -/
+def ltrSet (d : DirData) : List String := applyExtras d.extras (d.ltr.getD [])
 
 /-- body of the loop over anchor pairs in `_makeCursiveFeature` -/
 def lookupsForPair (quant : Option Q) (glyphs : List GlyphIn) (d : DirData) (p : String × String) : List Lookup :=
@@ -281,5 +305,26 @@ structure Out where
 def run (i : Input) : Out :=
   { gdef := gdefWrite i.quant i.glyphs i.categories i.blocks,
     curs := cursFeature i.quant i.glyphs i.dir i.cursTodo }
+
+/-! ### writer instances used for several fonts
+
+`BaseFeatureWriter.write(font, feaFile, compiler)` = `setContext` (a fresh `self.context` namespace built
+from its arguments) ; `_write` ; `finally: del self.context`.  Between two calls the instance keeps what
+`__init__` stored: `features`, `mode`, `options` (here: the quantisation step).  Everything else
+(`font`, `feaFile`, `compiler`, `todo`, the loaded categories, the glyph set, the direction data) lives
+in `self.context` or in local variables. -/
+
+/-- what the writer instances keep between two `write()` calls -/
+structure Writers where
+  quant : Option Q
+  deriving Repr
+
+/-- one font compiled with the given instances: the instances afterwards, and what was written -/
+def writeOne (w : Writers) (i : Input) : Writers × Out := (w, run { i with quant := w.quant })
+
+/-- the same instances over a sequence of fonts (`quant` of the inputs is overridden by the instances') -/
+def runSeq (w : Writers) : List Input → List Out
+  | [] => []
+  | i :: is => let r := writeOne w i; r.2 :: runSeq r.1 is
 
 end Ufo2ft.C18
